@@ -49,6 +49,7 @@ var (
 	inDoc2     = []byte(` [[1.25],[2.5,[3.75e1]],{"k":[4.5]}] `)
 	inDoc3     = []byte(`[{"a":{"b":{}}},[[]],"` + "\\" + `ud83d` + "\\" + `ude00"]`)
 	inDoc4     = []byte(`{"alpha":1,"beta":2,"gamma":3,"x` + "\\" + `ty":4}`)
+	inFields   = []byte(`2026112917"a` + "\\" + `n"` + `true1.5e3`)
 	inDeep6000 = []byte(strings.Repeat("[", 6000) + strings.Repeat("]", 6000))
 	inBad      = []byte(`[[1.5],{"a":[2.5,}]`)
 	inBadFast  = []byte(`{"a":[1,2`)
@@ -84,7 +85,7 @@ var sharedInputs = func() []struct {
 	mk := func(n string, b []byte) in { return in{n, b, append([]byte(nil), b...)} }
 	return []in{mk("inDoc", inDoc), mk("inDoc2", inDoc2), mk("inDoc3", inDoc3), mk("inDoc4", inDoc4), mk("inBad", inBad), mk("inBadFast", inBadFast),
 		mk("inFloatF", inFloatF), mk("inFloatEL", inFloatEL), mk("inFloatS1", inFloatS1), mk("inFloatS2", inFloatS2), mk("inFloatOv", inFloatOv), mk("inInt", inInt), mk("inUint", inUint),
-		mk("inStrEsc", inStrEsc), mk("inStrPair1", inStrPair1), mk("inStrPair2", inStrPair2), mk("inLit", inLit), mk("inNull", inNull), mk("inUTF8", inUTF8), mk("inDeep", inDeep), mk("inDeep6000", inDeep6000)}
+		mk("inStrEsc", inStrEsc), mk("inStrPair1", inStrPair1), mk("inStrPair2", inStrPair2), mk("inLit", inLit), mk("inNull", inNull), mk("inUTF8", inUTF8), mk("inDeep", inDeep), mk("inDeep6000", inDeep6000), mk("inFields", inFields)}
 }()
 
 func restoreInputs() {
@@ -166,6 +167,19 @@ func concTemplates() []concTemplate {
 			var b rjson.Buffer
 			p, err := recurseArrays(inDeep6000[500:len(inDeep6000)-500], &b)
 			return f("%d %v", p, err)
+		}},
+		{"fixed-width fields A (sub-slices of one buffer)", func() string {
+			y, p1, e1 := rjson.ReadUint64(inFields[0:4])
+			d, p2, e2 := rjson.ReadFloat64(inFields[6:8])
+			s, p3, e3 := rjson.ReadString(inFields[10:15], nil)
+			return f("%d %d %v %v %d %v %q %d %v", y, p1, e1, d, p2, e2, s, p3, e3)
+		}},
+		{"fixed-width fields B (sub-slices of one buffer)", func() string {
+			m, p1, e1 := rjson.ReadInt64(inFields[4:6])
+			h, p2, e2 := rjson.ReadFloat64(inFields[8:10])
+			b, p3, e3 := rjson.ReadBool(inFields[15:19])
+			v := rjson.Valid(inFields[4:8], nil)
+			return f("%d %d %v %v %d %v %v %d %v %v", m, p1, e1, h, p2, e2, b, p3, e3, v)
 		}},
 		{"HandleObjectValues(doc4,reused key scratch)", func() string {
 			var out []string
